@@ -425,9 +425,24 @@ func buildC01(tier string) *core.Plan {
 			r.compare(c, "refMerge-files", core.Canon(parent)+" <- "+core.Canon(child), err, res)
 		}}
 
+	// scalars of different kinds that print alike ("1" and 1, "true" and true, "[1]" and [1]): an
+	// override is useless exactly when the value is the same value, not when it looks the same
+	kinds := []any{1, "1", 0, "0", true, "true", false, "false", 1.5, "1.5", "x", "", "<nil>", "[1]", []any{1}, "map[]", map[string]any{}, "map[a:1]", map[string]any{"a": 1}}
+	nk := int64(len(kinds))
+	kindSpace := core.Space{Name: "scalar-kinds-that-print-alike", N: nk * nk,
+		Desc: func(i int64) any { return map[string]any{"parent_value": kinds[i/nk], "child_value": kinds[i%nk]} },
+		Run: func(c *core.Ctx, i int64) {
+			pv, cv := kinds[i/nk], kinds[i%nk]
+			c01Pair(c, "refMerge-kinds", map[string]any{"a": core.Clone(pv), "k": 1}, map[string]any{"a": core.Clone(cv)})
+			c01Pair(c, "refMerge-kinds", map[string]any{"a": map[string]any{"b": core.Clone(pv), "k": 1}}, map[string]any{"a": map[string]any{"b": core.Clone(cv)}})
+			if !gen.IsMap(pv) && !gen.IsList(pv) {
+				c01Pair(c, "refMerge-kinds", map[string]any{"l": []any{core.Clone(pv), "other"}}, map[string]any{"l": []any{map[string]any{"$match": core.Clone(pv), "$value": core.Clone(cv)}}})
+			}
+		}}
+
 	return &core.Plan{
 		Spaces: func() []core.Space {
-			sp := []core.Space{product, listSpace, shapeSpace, fanout, chain, files}
+			sp := []core.Space{product, listSpace, shapeSpace, fanout, chain, files, kindSpace}
 			if tier != "thorough" {
 				sp = append(sp, product4)
 			}
